@@ -7,6 +7,7 @@ import (
 	"math/big"
 	"testing"
 
+	"github.com/bilibili/smgo/sm2/internal"
 	"github.com/bilibili/smgo/zzverif/hk"
 	"github.com/bilibili/smgo/zzverif/ref"
 )
@@ -378,6 +379,31 @@ func TestVerifC03(t *testing.T) {
 				}
 			}
 		}
+	}
+	// (b5) public keys that are NOT on the curve but nearly satisfy its equation: the two sides differ in one limb
+	// or one byte of the plain or of the internal (Montgomery) representation. If the library's own decoder
+	// lets one through, the rest of the tuple is completed with the library's own arithmetic on that point
+	// (r, s chosen, e = r - x1 of what the library computes), so that the only thing standing between the tuple
+	// and acceptance is the curve test the standard requires.
+	for _, np := range ref.NearCurvePoints(rng.Bytes, hk.N(1, 4)) {
+		px, py := ref.B32(np.X), ref.B32(np.Y)
+		sI, rr := randScalar(rng), randScalar(rng)
+		tt := ref.ModN(new(big.Int).Add(rr, sI))
+		e := ref.B32(randScalar(rng))
+		if tt.Sign() != 0 {
+			hk.Try(func() {
+				pt, err := internal.NewSM2Point().SetBytes(append(append([]byte{4}, px...), py...))
+				if err != nil {
+					return
+				}
+				res, err := internal.ScalarMixedMult_Unsafe(ref.B32(sI), pt, ref.B32(tt))
+				if err != nil || res.IsInfinity() == 1 {
+					return
+				}
+				e = ref.B32(ref.ModN(new(big.Int).Sub(rr, res.GetAffineX_Unsafe())))
+			})
+		}
+		add("off-curve-key:"+np.Class, px, py, e, ref.B32(rr), ref.B32(sI))
 	}
 	// non-canonical key x0 + p for on-curve x0 anywhere in [0, 2^256 - p) (top word of the encoding FFFFFFFE or FFFFFFFF)
 	{
